@@ -31,7 +31,9 @@ pub struct Nfa {
     pub eps: Vec<Vec<usize>>,
     pub trans: Vec<Vec<(usize, usize)>>, // (set id, target)
     pub sets: Vec<CharSet>,
-    pub set_ids: HashMap<CharSet, usize>,
+    /// fingerprint -> candidate set ids (full equality is checked on the candidates); hashing a
+    /// 770-range class such as \w with SipHash for every transition dominated the run time
+    pub set_ids: HashMap<u64, Vec<usize>>,
     pub start: usize,
     pub accept: usize,
 }
@@ -43,12 +45,21 @@ impl Nfa {
         self.eps.len() - 1
     }
     pub fn set_id(&mut self, s: CharSet) -> usize {
-        if let Some(&i) = self.set_ids.get(&s) {
-            return i;
+        let mut fp: u64 = 0xcbf29ce484222325 ^ (s.len() as u64);
+        for &(lo, hi) in s.iter().take(3).chain(s.iter().rev().take(3)) {
+            fp = (fp ^ lo as u64).wrapping_mul(0x100000001b3);
+            fp = (fp ^ hi as u64).wrapping_mul(0x100000001b3);
+        }
+        if let Some(cands) = self.set_ids.get(&fp) {
+            for &i in cands {
+                if self.sets[i] == s {
+                    return i;
+                }
+            }
         }
         let i = self.sets.len();
-        self.sets.push(s.clone());
-        self.set_ids.insert(s, i);
+        self.sets.push(s);
+        self.set_ids.entry(fp).or_default().push(i);
         i
     }
     pub fn state_count(&self) -> usize {
